@@ -459,7 +459,7 @@ class VerifyingKey(object):
         if not oid_pk == oid_ecPublicKey:
             raise der.UnexpectedDER(
                 "Unexpected object identifier in DER "
-                "encoding: {0!r}".format(oid_pk)
+                "encoding: {0}".format(der.oid_to_str(oid_pk))
             )
         curve = find_curve(oid_curve)
         point_str, empty = der.remove_bitstring(point_str_bitstring, 0)
@@ -1065,7 +1065,8 @@ class SigningKey(object):
 
             if algorithm_oid not in (oid_ecPublicKey, oid_ecDH, oid_ecMQV):
                 raise der.UnexpectedDER(
-                    "unexpected algorithm identifier '%s'" % (algorithm_oid,)
+                    "unexpected algorithm identifier '%s'"
+                    % der.oid_to_str(algorithm_oid)
                 )
             if empty != b"":
                 raise der.UnexpectedDER(
